@@ -397,6 +397,133 @@ def witness_rule(ctx, tier, rule='C14.witness'):
     return res, rows
 
 
+RECV = {
+    'Tx': ('', 'tx'),
+    'Bucket': ('let b = tx.get_bucket("b").unwrap();', 'b'),
+    'Cursor': ('let b = tx.get_bucket("b").unwrap(); let mut r = b.cursor();', 'r'),
+    'Range': ('let b = tx.get_bucket("b").unwrap(); let mut r = b.range::<std::ops::RangeFull>(..);', 'r'),
+    'Data': ('let b = tx.get_bucket("b").unwrap(); let r = b.get("k").unwrap();', 'r'),
+    'KVPair': ('let b = tx.get_bucket("b").unwrap(); let r = b.get_kv("k").unwrap();', 'r'),
+    'BucketName': ('let b = tx.get_bucket("b").unwrap(); let r = b.buckets().next().unwrap().0;', 'r'),
+}
+SKIP_TRAITS = ('Debug', 'PartialEq', 'Eq', 'From', 'Drop', 'StructuralPartialEq')
+
+
+def classify_output(ctx, fn, R, borrowing):
+    """'bounded' : some output region is (bounded by) the transaction borrow  -> keeping the result past the transaction must be rejected
+       'plain'   : the output mentions no region at all                          -> must compile
+       'escaping': db-lifetime bytes without the transaction borrow (flow rule decides) ; 'other': anything else"""
+    sig = fn_sig(fn)
+    roles = R.roles_in_inputs(sig)
+    regs = regions_of(sig['output'])
+    if not regs:
+        return 'plain'
+    rr = set()
+    for r in regs:
+        rr |= roles.get(r, set())
+    if rr & {'txb', 'borrow-of-carrier'}:
+        return 'bounded'
+    for (what, rg) in byte_nodes(sig['output'], R, borrowing):
+        r2 = set()
+        for r in rg:
+            r2 |= roles.get(r, set())
+        if 'db' in r2:
+            return 'escaping'
+    return 'other'
+
+
+def thorough(ctx):
+    """generated witnesses: for EVERY effectively public method of the transaction-bound types a client program that keeps the
+    result past the end of the transaction is type-checked; rustc's verdict must agree with the signature rule's classification"""
+    F = ctx.facts
+    R = getattr(ctx, '_c14_roles', None) or Roles(F)
+    borrowing = borrowing_adts(F)
+    programs = {}
+    expect = {}
+    for fn in F.fns:
+        if fn.kind == 'Closure' or not fn.eff_pub or 'sig' not in fn.j or not fn.self_adt:
+            continue
+        st = last_seg(fn.self_adt)
+        if st not in RECV:
+            continue
+        if fn.trait and last_seg(fn.trait) in SKIP_TRAITS:
+            continue
+        sig = fn.j['sig']
+        if not sig['inputs']:
+            continue
+        first = sig['inputs'][0]
+        is_self = (first.get('k') == 'adt' and last_seg(first.get('path', '')) == st) or (first.get('k') == 'ref' and first['t'].get('k') == 'adt' and last_seg(first['t'].get('path', '')) == st)
+        if not is_self:
+            continue
+        prep, recv = RECV[st]
+        args = []
+        okargs = True
+        preds = {p['self'].get('name'): last_seg(p['trait']) for p in fn.j.get('predicates', []) if p['k'] == 'trait' and p['self'].get('k') == 'param' and last_seg(p['trait']) != 'Sized'}
+        for inp in sig['inputs'][1:]:
+            if inp.get('k') == 'param':
+                tr = preds.get(inp['name'])
+                if tr in ('AsRef', 'ToBytes'):
+                    args.append('"k"')
+                elif tr == 'RangeBounds':
+                    args.append('..')
+                else:
+                    okargs = False
+            elif inp.get('k') == 'prim' and inp.get('s') == 'bool':
+                args.append('true')
+            else:
+                okargs = False
+        if not okargs:
+            continue
+        name = 'g_%s_%s' % (st.lower(), fn.name) + ('_' + last_seg(fn.trait).lower() if fn.trait else '')
+        turbofish = '::<std::ops::RangeFull>' if '..' in args and fn.name == 'range' else ''
+        call = '%s.%s%s(%s)' % (recv, fn.name, turbofish, ', '.join(args))
+        if st == 'Tx' and first.get('k') == 'adt':
+            continue        # consumes the transaction itself (commit): covered by the hand-written witnesses
+        src = '''#![allow(unused, dead_code)]
+use jammdb::*;
+fn sink<T>(_t: &T) {}
+fn main() {
+    let db = DB::open("never-run.db").unwrap();
+    let kept;
+    {
+        let tx = db.tx(true).unwrap();
+        %s
+        let v = %s;
+        kept = v;
+    }
+    sink(&kept);
+}
+''' % (prep, call)
+        programs[name] = src
+        expect[name] = (classify_output(ctx, fn, R, borrowing), fn)
+    res = []
+    if not programs:
+        return dict(results=[floor('C14.generated', 'generated witness programs', 0, 20)], stats={})
+    out = witness.run_corpus(programs, repo=getattr(F, 'repo_dir', None) or witness.REPO)
+    agree = 0
+    table = []
+    for name, (cls, fn) in sorted(expect.items()):
+        errs = out[name]['errors']
+        compiled = not errs
+        table.append(dict(method=fn.qual, classification=cls, rustc='compiles' if compiled else 'rejected ' + ','.join(sorted(set(errs)))))
+        if cls == 'bounded' and compiled:
+            res.append(bad('C14.generated', '%s | result escapes the transaction' % fn.qual,
+                           'a generated client program keeps the result of %s past the end of the transaction and TYPE-CHECKS, although its signature ties the result to the transaction borrow '
+                           'according to the signature rule: either the signature has a hole or the rule misjudges it' % fn.qual, where='%s:%d' % (fn.file, fn.line)))
+        elif cls == 'plain' and not compiled and not (set(errs) & {'E0597', 'E0505', 'E0716'}):
+            res.append(bad('C14.generated', '%s | generated program broken' % fn.qual, 'the generated program for %s fails with %s (generator out of date)' % (fn.qual, errs)))
+        elif cls in ('plain', 'escaping') and not compiled and (set(errs) & {'E0597', 'E0505', 'E0716'}):
+            res.append(bad('C14.generated', '%s | rustc bounds a result the rule calls %s' % (fn.qual, cls),
+                           'rustc rejects keeping the result of %s past the transaction (%s) but the signature rule classifies it as %s: the rule is out of step with the type system' % (fn.qual, errs, cls)))
+        else:
+            agree += 1
+    f = floor('C14.generated', 'generated witness programs', len(programs), 30)
+    if f:
+        res.append(f)
+    res.append(ok('C14.generated', '%d generated programs (one per public method of Tx/Bucket/Cursor/Range/Data/KVPair/BucketName): rustc and the signature rule agree on %d' % (len(programs), agree), sites=len(programs)))
+    return dict(results=res, stats=dict(generated_programs=len(programs), agreement=agree, table=table))
+
+
 def run(ctx, tier):
     results = []
     wres, rows = witness_rule(ctx, tier)
